@@ -31,6 +31,11 @@ fn panic_store() -> &'static Mutex<BTreeMap<String, String>> {
     S.get_or_init(|| Mutex::new(BTreeMap::new()))
 }
 
+thread_local! {
+    /// set once the current history followed a reorg deeper than the retention
+    static LEFT_RETENTION: std::cell::Cell<bool> = const { std::cell::Cell::new(false) };
+}
+
 fn thread_key() -> String {
     format!("{:?}", std::thread::current().id())
 }
@@ -245,6 +250,7 @@ impl Hist {
                             if n + self.keep_num <= self.hi_water && self.assert {
                                 // would leave the retention: only observed from here on
                                 self.assert = false;
+                                LEFT_RETENTION.with(|c| c.set(true));
                                 r.count("histories_leaving_retention");
                             }
                             self.idx.rollback().expect("rollback");
@@ -325,6 +331,7 @@ fn run_history(seed: u64, hi: u64, tier: Tier, deadline: Instant, r: &mut Report
         keys_per_step: tier.pick(8, 10),
     };
     r.count("histories");
+    LEFT_RETENTION.with(|c| c.set(false));
     hst.sync(r, keyset);
     let mut made = 0u64;
     let mut deep_done = false;
@@ -403,7 +410,12 @@ fn worker(seed: u64, tier: Tier, args: &Args, his: Vec<u64>, deadline: Instant) 
         let res = std::panic::catch_unwind(std::panic::AssertUnwindSafe(|| run_history(seed, hi, tier, deadline, &mut r, &mut keyset)));
         if res.is_err() {
             let msg = panic_store().lock().unwrap().remove(&thread_key()).unwrap_or_default();
-            if msg.contains("/repo/util/indexer") || msg.contains("/repo/util/indexer-sync") {
+            let indexer_code = msg.contains("/repo/util/indexer") || msg.contains("/repo/util/indexer-sync");
+            if indexer_code && LEFT_RETENTION.with(|c| c.get()) {
+                // outside the property: after a reorg deeper than keep_num the store is not
+                // expected to be consistent
+                r.count(&format!("obs.beyond_retention.panic@{}", msg.split(" :: ").next().unwrap_or("?")));
+            } else if indexer_code {
                 r.violation(
                     &format!("indexer.panic@{}", msg.split(" :: ").next().unwrap_or("?")),
                     format!("the indexer panicked: {msg}"),
